@@ -23,7 +23,7 @@ PROPS = {
     'C01': dict(
         level='model_checking', verus_units=['merge', 'core', 'utils'],
         kani=True,
-        kani_select=dict(quick=r'^k_task_(map_fil|filtermap_fil|flatmap_fil)_col_n|^k_glue_map_fil_col_n2c1|^k_api_par2_(empty|fil|fmap|map_fil)_collect_vec',
+        kani_select=dict(quick=r'^k_task_map_fil_col_n|^k_glue_map_fil_col_n2c1|^k_api_par2_(empty|fil|fmap|map_fil)_collect_vec',
                          thorough=r'^k_task_\w+_col_n|^k_glue_\w+_col_n|^k_api_par2_\w+_collect(_vec)?_n'),
         trusted_base=[T1, T2, T3, T4, T5, ASPEC, A64, ARITH, RSCHED, STUBS, MODEL],
         assumptions=[TASK_BOUND],
